@@ -29,6 +29,9 @@ func (g *docGen) literal(kind string) interface{} {
 	g.seq++
 	switch kind {
 	case "xsd:string":
+		if g.seq%13 == 0 {
+			return ""
+		}
 		return fmt.Sprintf("s%d", g.seq)
 	case "xsd:boolean":
 		return g.seq%2 == 0
@@ -43,6 +46,9 @@ func (g *docGen) literal(kind string) interface{} {
 	case "xsd:anyURI":
 		return g.id()
 	case "rdf:langString":
+		if g.seq%9 == 0 {
+			return map[string]interface{}{} // an empty language map is still a member
+		}
 		return map[string]interface{}{"en": fmt.Sprintf("e%d", g.seq), "fr": "f"}
 	case "rfc:bcp47":
 		return "en-GB"
@@ -102,8 +108,22 @@ func (g *docGen) object(ty string, depth int, canonical bool) map[string]interfa
 			}
 			return g.value(kind, depth, canonical)
 		}
+		// one spelling per natural-language member in a canonical document
+		if pl.NatLang {
+			if _, has := o[pn]; has {
+				continue
+			}
+			if _, has := o[pn+"Map"]; has {
+				continue
+			}
+		}
 		if pl.Functional {
-			o[pn] = pick()
+			v := pick()
+			if mm, isMap := v.(map[string]interface{}); isMap && pl.NatLang && mm["type"] == nil {
+				o[pn+"Map"] = v
+			} else {
+				o[pn] = v
+			}
 			continue
 		}
 		cnt := 1
@@ -257,7 +277,11 @@ func init() {
 					if pn == "type" || pn == "id" {
 						continue
 					}
-					for _, kind := range propPlans[pn].Kinds {
+					for ki, kind := range propPlans[pn].Kinds {
+						// quick tier: every literal kind and the IRI, and a rotating sample of the type kinds
+						if !thorough && len(kind) > 3 && kind[:3] == "ty:" && (ki+len(ty)+len(pn))%11 != 0 {
+							continue
+						}
 						o := map[string]interface{}{"type": ty, "id": g.id(), "@context": ctxAll}
 						v := g.value(kind, 2, true)
 						if mm, isMap := v.(map[string]interface{}); isMap && propPlans[pn].NatLang && mm["type"] == nil {
